@@ -44,6 +44,8 @@ func init() {
 			{ID: "R05q", Floor: 1, Doc: "the fully-indexed characteristic is set from the StoreIdentityCIDs option, wherever it is set (= R10o)", Run: ruleR10o},
 			{ID: "R05r", Floor: 2, Doc: "the position-tracking writers advance by what the underlying writer reported written, so DataSize and IndexOffset describe the bytes that are there (= R16d)", Run: ruleR16d},
 			{ID: "R05s", Floor: 1, Doc: "the deferred writer hands every put to the underlying writer, whose de-duplication options decide (= R20f)", Run: ruleR20f},
+			{ID: "R05t", Floor: 1, Doc: "the library's own inspection accepts a finalized archive of any put history, none included: no division by a block count that can be zero (= R09k)", Run: ruleR09k},
+			{ID: "R05u", Floor: 1, Doc: "a resumed session appends right behind the last section (= R06c)", Run: ruleR06c},
 		},
 	})
 }
@@ -441,36 +443,68 @@ func ruleR05b(c *Ctx, r *Report) {
 				return
 			}
 			// the stored value, or every input of the merge it is (a helper that applies the paddings
-			// conditionally, inlined back, hands over phi[header, WithDataPadding(..), WithIndexPadding(..)])
-			for _, leaf := range phiLeaves(st.Val) {
-				if loadsField(leaf, cs.spec.pkg, cs.hdrTyp, "header") {
-					continue // the header as it was
-				}
-				n++
-				cl, _ := callOf(leaf)
-				if cl == nil {
-					bad = "header field assigned from something other than NewHeader/With*Padding"
-					return
-				}
-				f := calleeFunc(cl.Common())
-				switch {
-				case funcIs(f, modV2, "", "NewHeader"):
-					if k, ok := constInt(cl.Call.Args[0]); !ok || k != 0 {
-						bad = "initial header is not NewHeader(0)"
+			// conditionally, inlined back, hands over phi[header, WithDataPadding(..), WithIndexPadding(..)]);
+			// a helper the pinned tree does not have and that could not be inlined (it stands among other
+			// calls in a composite literal) is judged by what it returns
+			var judge func(v ssa.Value, inHelper bool, depth int)
+			judge = func(v ssa.Value, inHelper bool, depth int) {
+				for _, leaf := range phiLeaves(v) {
+					if loadsField(leaf, cs.spec.pkg, cs.hdrTyp, "header") {
+						continue // the header as it was
 					}
-					sawNew = true
-				case funcIs(f, modV2, "Header", "WithDataPadding"):
-					if !loadsField(canon(cl.Call.Args[1]), modV2, "Options", "DataPadding") {
-						bad = "WithDataPadding is not given Options.DataPadding"
+					if inHelper {
+						// the helper's own header variable being passed along
+						if u, ok := leaf.(*ssa.UnOp); ok && u.Op == token.MUL {
+							if _, isAl := u.X.(*ssa.Alloc); isAl && isNamed(u.Type(), modV2, "Header") {
+								continue
+							}
+						}
 					}
-				case funcIs(f, modV2, "Header", "WithIndexPadding"):
-					if !loadsField(canon(cl.Call.Args[1]), modV2, "Options", "IndexPadding") {
-						bad = "WithIndexPadding is not given Options.IndexPadding"
+					n++
+					cl, _ := callOf(leaf)
+					if cl == nil {
+						bad = "header field assigned from something other than NewHeader/With*Padding"
+						return
 					}
-				default:
-					bad = "header field assigned from " + funcKey(f)
+					f := calleeFunc(cl.Common())
+					switch {
+					case funcIs(f, modV2, "", "NewHeader"):
+						if k, ok := constInt(cl.Call.Args[0]); !ok || k != 0 {
+							bad = "initial header is not NewHeader(0)"
+						}
+						sawNew = true
+					case funcIs(f, modV2, "Header", "WithDataPadding"):
+						if !loadsField(canon(cl.Call.Args[1]), modV2, "Options", "DataPadding") {
+							bad = "WithDataPadding is not given Options.DataPadding"
+						}
+					case funcIs(f, modV2, "Header", "WithIndexPadding"):
+						if !loadsField(canon(cl.Call.Args[1]), modV2, "Options", "IndexPadding") {
+							bad = "WithIndexPadding is not given Options.IndexPadding"
+						}
+					default:
+						callee := staticTarget(cl.Common())
+						if callee != nil && callee.Blocks != nil && depth < 2 && isRepoPkg(callee.Pkg.Pkg.Path()) && !baselineFuncs[ssaDeclKey(callee)] {
+							n--
+							for _, ret := range returnsOf(callee) {
+								if len(ret.Results) == 1 {
+									judge(ret.Results[0], true, depth+1)
+								}
+							}
+							// assignments to the helper's header variable on the way
+							eachInstr(callee, func(in2 ssa.Instruction) {
+								if st2, ok := in2.(*ssa.Store); ok {
+									if al, ok := st2.Addr.(*ssa.Alloc); ok && isNamed(derefType(al.Type()), modV2, "Header") {
+										judge(st2.Val, true, depth+1)
+									}
+								}
+							})
+							continue
+						}
+						bad = "header field assigned from " + funcKey(f)
+					}
 				}
 			}
+			judge(st.Val, false, 0)
 		})
 		if bad == "" && (!sawNew || n < 3) {
 			bad = "constructor does not build the header from NewHeader(0) plus both padding options"
